@@ -259,8 +259,15 @@ def run_function_paths(prog, reg, con, case_assign, max_paths=400, quick_ms=300)
                 results.append(pr)
                 continue
             if not ctx.feasible():
-                pr.status = 'infeasible'
+                # the path was cut (typically right after an obligation that is plainly false): keep what was
+                # generated up to that point, evaluate no postcondition on an impossible state
+                pr.status = 'ok' if ctx.obligations else 'infeasible'
                 pr.detail = 'path condition unsatisfiable at exit'
+                pr.exit = 'cut'
+                pr.obligations = ctx.obligations
+                pr.tags = ctx.path_tags
+                pr.trusted = ctx.trusted
+                pr.ctx = ctx
                 results.append(pr)
                 continue
             snap1 = ctx.snapshot()
